@@ -306,6 +306,14 @@ impl<'a> Program<'a> {
         Ok(())
     }
 
+    /// Flush the output file; an error here means the pcap is incomplete
+    pub fn flush(&mut self) -> Result<(), Error> {
+        if let Some(ref mut wr) = self.wr {
+            wr.flush()?;
+        }
+        Ok(())
+    }
+
     pub fn update_time(&mut self, ns: u64) {
         // println!("time advance: {} ns", ns);
 
@@ -323,8 +331,7 @@ impl<'a> Program<'a> {
                 if let Some(ref mut wr) = self.wr {
                     let pkt = Rc::make_mut(&mut ptr);
 
-                    wr.write_packet(self.now, pkt)
-                        .expect("failed to write packet");
+                    wr.write_packet(self.now, pkt)?;
                 };
             }
             Val::PktGen(mut gen) => {
@@ -337,8 +344,7 @@ impl<'a> Program<'a> {
                     let inner = Rc::make_mut(&mut gen);
 
                     for pkt in inner {
-                        wr.write_packet(self.now, pkt)
-                            .expect("failed to write packet");
+                        wr.write_packet(self.now, pkt)?;
                     }
                 };
             }
